@@ -4,6 +4,8 @@ import json,os,subprocess,sys,re
 ids=sys.argv[1:] or sorted(os.listdir('/verif/seeded'))
 man=json.load(open('/verif/MANIFEST.json'))
 props=[c['property_id'] for c in man['checks']]
+os.makedirs('/tmp/seedrun',exist_ok=True)
+subprocess.run(['cp','/verif/known_findings.json','/tmp/seedrun/known_findings.json'])  # open findings are not catches
 for i in ids:
     d='/verif/seeded/'+i
     if not os.path.exists(d+'/patch.diff'): continue
